@@ -48,7 +48,7 @@ CHECKS = {
          "state and transition counts equal, transition sets equal for small sizes, every real transition judged by the table contract; long random histories for sizes 8..4096; end-to-end histories through the serializer (tables of 1-4 slots, statements mixing resident and new keys) judged by TLC.",
          "TLC exhaustive model checking of spec/PyLookup.tla + state-graph comparison on real objects"),
  "C06": ("model_checking", "6 C06",
-         "TLC enumerates the complete lattice (3 stream classes x 8 logical types x delimited x frame_size{1,2,250} x {inferred flow, 6 FrameFlow classes} x {1,2} sinks = 2016 points) on spec/PyConfig.tla with invariant NoSilentDrop "
+         "TLC enumerates the complete lattice (3 stream classes x 8 logical types x delimited x frame_size{1,2,250} x {inferred flow, 6 FrameFlow classes} x {1,2} sinks = 2016 points, plus 336 points for a Dataset of two graphs unpacked by a TripleStream) on spec/PyConfig.tla with invariants NoSilentDrop and OneFramePerGraph "
          "(and must find it violated when the model's final flush is restricted to flat types); every point is replayed on the real classes through stream_frames of both integrations and, with the class guessed, through flat_/grouped_stream_to_file, Graph.serialize, sink.serialize; "
          "an accepted call must leave stream.flow empty and its bytes are judged by TLC (denotation = input).",
          "TLC exhaustive model checking of spec/PyConfig.tla + replay of every lattice point into the real serializers + TLC trace judging"),
